@@ -26,6 +26,7 @@ RULE_TEXT = (
     "C18.a file-name template agreement connect vs CREATE DATABASE, with and without db_path; C18.b=C10.c; C18.c=C09.c "
     "(side tables qualified by the object's catalog); C18.d=C20.a; C18.e=C13.e; C18.f bootstrap statements are IF NOT "
     "EXISTS (C14.a)."
+    " C18.g no call that deletes, moves, truncates or overwrites a file anywhere in the package (positive control)."
 )
 TRUSTED = ["CPython ast", "DuckDB ATTACH '<file>' persists the catalog in that file; ':memory:' does not touch the disk"]
 
